@@ -1,0 +1,24 @@
+//go:build verif
+
+// Contracts for the deductive verifier in /verif (comment-only file; see /verif/DESIGN.md).
+package syncgroup
+
+//@ property C04
+
+// Wire layout per version, from the Kafka protocol definition of this API (field order, types and the versions each field
+// exists in); the encoders and decoders are compiled from the struct tags, so the tags are checked against it.
+// ProtocolType and ProtocolName (v5) are nullable in the Kafka definition; the library declares them non-nullable: an empty Go
+// string is sent as the empty string and a null from the broker decodes to the empty string, the same Go value either way.
+//@ wire Request
+//@   layout v0..v2 GroupID string, GenerationID int32, MemberID string, Assignments []RequestAssignment
+//@   layout v3 GroupID string, GenerationID int32, MemberID string, GroupInstanceID string?, Assignments []RequestAssignment
+//@   layout v4 _ struct{} @-1, GroupID string, GenerationID int32, MemberID string, GroupInstanceID string?, Assignments []RequestAssignment
+//@   layout v5 _ struct{} @-1, GroupID string, GenerationID int32, MemberID string, GroupInstanceID string?, ProtocolType string, ProtocolName string, Assignments []RequestAssignment
+//@ wire RequestAssignment
+//@   layout v0..v3 MemberID string, Assignment bytes
+//@   layout v4..v5 _ struct{} @-1, MemberID string, Assignment bytes
+//@ wire Response
+//@   layout v0 ErrorCode int16, Assignments bytes
+//@   layout v1..v3 ThrottleTimeMS int32, ErrorCode int16, Assignments bytes
+//@   layout v4 _ struct{} @-1, ThrottleTimeMS int32, ErrorCode int16, Assignments bytes
+//@   layout v5 _ struct{} @-1, ThrottleTimeMS int32, ErrorCode int16, ProtocolType string, ProtocolName string, Assignments bytes
